@@ -43,6 +43,7 @@ def run(F, rep, tier):
     implicit_ret(F, rep)
     loop_do(F, rep)
     newline_flag(F, rep)
+    bracket_modes(F, rep)
     comments(F, rep)
     no_layout_flow(F, rep)
     paren_transparent(F, rep)
@@ -258,6 +259,8 @@ def newline_flag(F, rep):
                     if e2 is not None and _pops(e2, hid, POP):
                         ok = True
                         break
+                if not ok:
+                    ok = _pops_in_end_callback(F, items[idx + 1:], hid, POP)
                 rep.ob("NEWLINE-FLAG", key, ok,
                        "the flag saved by push_skip_newlines (`%s`) is restored with pop_skip_newlines on every success path of its block%s" % (
                            saved[0]["name"], "" if ok else " — NOT restored: newline handling of the bracketed construct leaks into the code that follows"),
@@ -276,6 +279,7 @@ def newline_flag(F, rep):
 # which newline mode each construct selects (read from the source, one reason per line).  Inside brackets newlines
 # are skipped (true); statement-level parsers switch skipping off because a newline ends a statement (false);
 # a prime call has no closing token of its own and must keep the mode of whatever surrounds it (inherit).
+NEW_BRACKETS_STATEMENT = ["true", "true"]                          # enum( *A .. ), blob( *A .. )
 NEWLINE_MODE_TABLE = {
     "sylt_parser::assignable_call": ["inherit", "true"],          # f' a, b  /  f(a, b)
     "expression::case_expression": ["true"],                       # case .. do .. end spans lines
@@ -283,7 +287,9 @@ NEWLINE_MODE_TABLE = {
     "expression::grouping_or_tuple": ["true"],
     "expression::blob": ["true"],
     "expression::list": ["true"],
-    "statement::statement": ["false", "true", "false", "false", "true"],   # statement start; from (..) / from ..; enum header; blob { }
+    "statement::statement": ["false", "true", "false", "false", "true"] + NEW_BRACKETS_STATEMENT,   # statement start; from (..) / from ..; enum header; blob { }
+    "sylt_parser::assignable_index": ["true"],                     # t[ 0 ]
+    "sylt_parser::parse_type": ["true", "true", "true"],           # A( .. ), ( .. ), [ .. ]
 }
 
 
@@ -311,6 +317,83 @@ def newline_modes(F, rep, PUSH):
                    "%s selects the newline modes %s (reviewed: %s)%s" % (name, modes, want, "" if sorted(modes) == sorted(want) else
                    " — a bracketed construct whose inner parser switches newline skipping off (or a prime call that no longer inherits "
                    "the surrounding mode) makes line breaks inside brackets significant"), fn["sp"])
+
+
+def _pops_in_end_callback(F, items, hid, POP):
+    """the list parser's protocol: parse_sep_end_by(ctx, sep, end, item) succeeds only with the cursor an `end` callback
+    returned together with `true`.  A closure that restores the saved flag exactly when it answers `true`, handed over as
+    that callback by what follows in the block, restores the flag on every success path."""
+    closures = {}
+    for st, e in items:
+        if st is not None and st.get("k") == "Let" and e is not None and peel(e).get("k") == "Closure":
+            cl = peel(e)
+            body = peel(cl["body"])
+            # Ok((if COND { ..pop(saved).. } else { .. }, COND))
+            tups = [t for t in nodes(body, "Tup") if len(t["es"]) == 2]
+            for t in tups:
+                first, second = peel(t["es"][0]), peel(t["es"][1])
+                if first.get("k") == "If" and first.get("e") is not None and pp(first["c"]) == pp(second):
+                    pops_then = any(n.get("k") == "MethodCall" and callee(n) == POP and peel(n["args"][0]).get("hid") == hid
+                                    for n in uncond_nodes(first["t"]) if isinstance(n, dict))
+                    if pops_then:
+                        for b in pat_bindings(st["pat"]):
+                            closures[b["hid"]] = True
+    if not closures:
+        return False
+    handed = False
+    for st, e in items:
+        if e is None:
+            continue
+        for c in uncond_nodes(e):
+            if isinstance(c, dict) and c.get("k") == "Call" and callee(c) == P + "parse_sep_end_by" and len(c["args"]) >= 3:
+                a = peel(c["args"][2])
+                if a.get("k") == "Path" and a.get("hid") in closures:
+                    handed = True
+    return handed and _list_parser_ends_with_end(F)
+
+
+def _list_parser_ends_with_end(F):
+    """every Ok(..) of parse_sep_end_by carries a cursor that an `end(..)` call returned with `true`, or the one of the
+    recursive call"""
+    fn = F.fn(P + "parse_sep_end_by")
+    body = fn_body(fn)
+    prm = [b for q in fn["params"] for b in pat_bindings(q["pat"])]
+    end_hid = prm[2]["hid"] if len(prm) >= 4 else None
+    src = {}
+    for st in nodes(body, "Let"):
+        init = st.get("init")
+        if init is None:
+            continue
+        calls = [c for c in nodes(init, "Call")]
+        kind = None
+        for c in calls:
+            f = peel(c.get("f") or {})
+            if f.get("k") == "Path" and f.get("hid") == end_hid:
+                kind = "end"
+            elif callee(c) == P + "parse_sep_end_by":
+                kind = "rec"
+        bs = pat_bindings(st["pat"])
+        if kind and bs:
+            src[bs[0]["hid"]] = (kind, bs[1]["hid"] if len(bs) > 1 else None)
+    oks = []
+    for c, parents in walk(body):
+        if c.get("k") == "Call" and (callee(c) or "").endswith("Result::Ok") and c["args"]:
+            t = peel(c["args"][0])
+            if t.get("k") == "Tup" and t["es"]:
+                x = peel(t["es"][0])
+                if x.get("k") == "Path" and x.get("res") == "Local":
+                    oks.append((x["hid"], parents))
+    if not oks:
+        return False
+    for hid, parents in oks:
+        if hid not in src:
+            return False
+        kind, flag = src[hid]
+        if kind == "end":
+            guarded = any(p.get("k") == "If" and peel(p["c"]).get("hid") == flag for p in parents)
+            if not guarded:
+                return False
+    return True
 
 
 def _own_calls(e):
@@ -531,3 +614,182 @@ def no_layout_flow(F, rep):
                 calls.append(last(fn["_path"], 2))
     rep.ob("NO-LAYOUT-FLOW", "no-span-calls", not calls, "lowering/emission never call .span() on AST nodes (%s)" % calls)
     rep.floor("NO-LAYOUT-FLOW", "span-typed bindings inspected", n, 1)
+
+
+# --------------------------------------------------------------------------- every bracket switches newline skipping on
+
+OPENERS = {"LeftParen", "LeftBracket", "LeftBrace"}
+
+
+def _matches_pats(e):
+    """variant names P of a `matches!(X.token(), P | ..)` expansion (match .. { P => true, _ => false }), else None"""
+    from hir import pat_alternatives, pat_variant
+    e = peel(e)
+    if not isinstance(e, dict) or e.get("k") != "Match" or len(e["arms"]) != 2:
+        return None
+    scr = peel(e["scrut"])
+    if not (scr.get("k") == "MethodCall" and scr["m"] == "token"):
+        return None
+    yes = peel(e["arms"][0]["body"])
+    no = peel(e["arms"][1]["body"])
+    if not (yes.get("k") == "Lit" and yes.get("v") is True and no.get("k") == "Lit" and no.get("v") is False):
+        return None
+    if e["arms"][0].get("guard") is not None:
+        return None
+    out = set()
+    for alt in pat_alternatives(e["arms"][0]["pat"]):
+        v = pat_variant(alt)
+        if not v:
+            return None
+        out.add(last(v))
+    return out
+
+
+def _leaves(e):
+    from hir import diverges
+    e = peel(e)
+    while isinstance(e, dict) and e.get("k") == "Block":
+        if e.get("e") is not None:
+            e = peel(e["e"])
+        elif e["stmts"] and e["stmts"][-1].get("k") in ("Semi", "ExprStmt"):
+            e = peel(e["stmts"][-1]["e"])
+        else:
+            return False
+    return isinstance(e, dict) and (e.get("k") in ("Ret", "Break", "Continue") or diverges(e))
+
+
+def _tested_cursor(m):
+    """hid of the local whose .token() a match / matches! looks at"""
+    scr = peel(m["scrut"])
+    if scr.get("k") == "MethodCall" and scr["m"] == "token":
+        return _cursor_key(scr["recv"])
+    return None
+
+
+def _cursor_key(r):
+    r = peel(r)
+    if r.get("k") == "Path" and r.get("res") == "Local":
+        return r["hid"]
+    return "expr:" + pp(r)
+
+
+def _token_known(site, parents):
+    """variant names the token under the cursor that `site` moves is known to be (from the innermost test of that very
+    cursor variable; a closure has its own cursor), else None"""
+    from hir import pat_alternatives, pat_variant
+    cur = _cursor_key(site["recv"])
+    chain = list(parents) + [site]
+    for i in range(len(chain) - 2, -1, -1):
+        p, child = chain[i], chain[i + 1]
+        k = p.get("k")
+        if k == "Closure":
+            return None
+        if k == "Match":
+            scr = peel(p["scrut"])
+            if scr.get("k") == "MethodCall" and scr["m"] == "token" and _tested_cursor(p) == cur:
+                for a in p["arms"]:
+                    if a is child or any(x is child for x in nodes(a)):
+                        vs = {last(pat_variant(alt)) for alt in pat_alternatives(a["pat"]) if pat_variant(alt)}
+                        if vs and a.get("guard") is None and len(vs) == len(pat_alternatives(a["pat"])):
+                            return vs
+                        return None
+        elif k == "If":
+            pats = _matches_pats(p["c"])
+            if pats is not None and _tested_cursor(peel(p["c"])) == cur and (child is p["t"] or any(x is child for x in nodes(p["t"]))):
+                return pats
+        elif k == "Block":
+            # expect!: { if !matches!(tok, P) { return Err(..) }; ctx.skip(1) }
+            idx = None
+            for j, st in enumerate(p["stmts"]):
+                if st is child or any(x is child for x in nodes(st)):
+                    idx = j
+            if idx is None and p.get("e") is not None and (p["e"] is child or any(x is child for x in nodes(p["e"]))):
+                idx = len(p["stmts"])
+            if idx:
+                prev = p["stmts"][idx - 1]
+                e = peel(prev.get("e") if prev.get("k") in ("ExprStmt", "Semi") else prev)
+                if isinstance(e, dict) and e.get("k") == "If" and e.get("e") is None:
+                    c = peel(e["c"])
+                    if c.get("k") == "Unary" and c.get("op") == "Not":
+                        pats = _matches_pats(c["e"])
+                        if pats is not None and _tested_cursor(peel(c["e"])) == cur and _leaves(e["t"]):
+                            return pats
+    return None
+
+
+def bracket_modes(F, rep, rule="BRACKET-MODE"):
+    """`line breaks inside brackets are insignificant`: wherever a parsing function consumes an opening bracket (the cursor is
+    known to stand on `(`, `[` or `{` when it is moved on), newline skipping is switched on before anything inside the
+    brackets is parsed - otherwise the first line break after the bracket is a token the inner parser does not expect."""
+    PUSH = P + "Context::push_skip_newlines"
+    parsers = {f["_path"] for f in F.own_fns(["sylt_parser"]) if not f["_path"].startswith(P + "Context::")
+               and any("sylt_parser::Context" in prm["ty"] for prm in f["params"])}
+    n = 0
+    for fn in F.own_fns(["sylt_parser"]):
+        if fn["_path"].startswith(P + "Context::"):
+            continue
+        body = fn_body(fn)
+        k = 0
+        for site, parents in walk(body):
+            if not (site.get("k") == "MethodCall" and callee(site) == P + "Context::skip"):
+                continue
+            known = _token_known(site, parents)
+            if not known or not known <= OPENERS:
+                continue
+            n += 1
+            k += 1
+            verdict = _mode_after(site, parents, parsers, PUSH)
+            rep.ob(rule, "%s|%s#%d" % (last(fn["_path"], 2) if fn["_path"].count("::") > 1 else last(fn["_path"]), "+".join(sorted(known)), k),
+                   verdict is True,
+                   "after the opening %s newline skipping is switched on before the contents are parsed" % "/".join(sorted(known))
+                   if verdict is True else
+                   "%s moves past an opening %s and %s: a line break inside these brackets (`t[⏎ 0⏎]`, `a: (int,⏎ int)`, "
+                   "`A(int,⏎ str)`) is a syntax error, although line breaks inside brackets are layout" % (
+                       last(fn["_path"]), "/".join(sorted(known)), verdict), line_of(site))
+    rep.floor(rule, "places where an opening bracket is consumed", n, 8)
+
+
+def _mode_after(site, parents, parsers, PUSH):
+    """True when push_skip_newlines(true) comes before the next parsing call on the way on from `site`"""
+    def is_push_true(x):
+        if x.get("k") == "MethodCall" and callee(x) == PUSH and x["args"]:
+            a = peel(x["args"][0])
+            return a.get("k") == "Lit" and a.get("v") is True
+        return False
+
+    def is_parser_call(x):
+        return x.get("k") in ("Call", "MethodCall") and callee(x) in parsers
+
+    chain = list(parents) + [site]
+    # 1. enclosing expressions the site is an operand of
+    for i in range(len(chain) - 2, -1, -1):
+        p, child = chain[i], chain[i + 1]
+        if is_push_true(p) and peel(p["recv"]) is peel(child):
+            return True
+        if is_push_true(p):
+            return True
+        if is_parser_call(p):
+            return "hands the cursor straight to %s()" % last(callee(p))
+        if p.get("k") in ("Block", "Loop", "While", "ForLoop", "Match", "If", "Closure"):
+            break
+    # 2. what follows in the enclosing blocks, innermost first
+    for i in range(len(chain) - 2, -1, -1):
+        p, child = chain[i], chain[i + 1]
+        if p.get("k") == "Closure":
+            return "leaves the closure without switching newline skipping on"
+        if p.get("k") != "Block":
+            continue
+        idx = None
+        for j, st in enumerate(p["stmts"]):
+            if st is child or any(x is child for x in nodes(st)):
+                idx = j
+        rest = p["stmts"][idx + 1:] if idx is not None else []
+        if p.get("e") is not None and not (p["e"] is child or any(x is child for x in nodes(p["e"]))):
+            rest = rest + [p["e"]]
+        for st in rest:
+            for x in nodes(st):
+                if is_push_true(x):
+                    return True
+                if is_parser_call(x):
+                    return "calls %s() with newline skipping as it was" % last(callee(x))
+    return "returns without switching newline skipping on"
